@@ -152,6 +152,20 @@ def run(ctx):
                 (strip_refs(pred[1])[2] == '1' if strip_refs(pred[1])[0] == 'field' else True)
             ctx.verdict(ok, rule, rule + ':strict-filter', 'actions are skipped exactly when not `prob > 0.0` (strict), on the probability component', an.where(bi),
                         'predicate = %s' % (pred and (pred[0], facts.show(pred[1]), facts.show(pred[2])),), breaks='zero-probability actions listed, or positive ones dropped')
+        # an explicit `None` is returned only where the source itself ran out (the reference tree has no explicit None at
+        # all: `find(..).map(..)` / `next().map(..)` carry the source's own None) — an early, data-dependent None (e.g.
+        # "the mass yielded so far reached 1.0") drops positive actions whose predecessors rounded up
+        rule_c = 'C13.action-view-complete'
+        for bi, st, e in q.agg_sites(an, 'option::Option', 'None'):
+            if st['pl']['l'] != 0:
+                continue
+            ex = False
+            for c in an.conds(bi):
+                if c['kind'] == 'variant' and c['variants'] == ['None'] and \
+                        q.find_sub(c['a'], lambda s: s[0] == 'call' and short(s[1]) in (e7.UNIT | {'find', 'find_map', 'last', 'nth'})) is not None:
+                    ex = True
+            ctx.verdict(ex, rule_c, rule_c + ':none-only-when-exhausted', 'the action view returns None only where the infoset\'s actions are exhausted (the source iterator returned None)',
+                        an.where(bi), 'None guarded by exhaustion of the source: %s' % ex, breaks='positive-probability actions missing from the named view (and size_hint()/len() overcount)')
         # the mapped value is (action, that probability)
         for bi, t, e in q.calls_named(an, 'map'):
             cf, agg = q.closure_of(lib, e[2][1])
